@@ -196,8 +196,59 @@ def gen_bitfield_cells(V, rng, npairs):
     return obs, len(cells)
 
 
+def gen_bitfield_updates(rng):
+    """Assignments to bit-fields: the value of `s.f = K`, `s.f op= K`, `++s.f`, `s.f++` (the old value for the postfix forms) and the value the
+    field holds afterwards, at and around the ends of the field's range.  Expected values come from the definition: reduce modulo 2^w, reinterpret."""
+    obs = []
+    cells = set()
+    k = 0
+    for (cn, sg, maxw) in (('int', True, 32), ('unsigned', False, 32), ('unsigned short', False, 16), ('signed char', True, 8), ('_Bool', False, 1)):
+        for w in sorted({1, 2, 3, 7, 8, 15, 31, 32} & set(range(1, maxw + 1))):
+            if cn == '_Bool' and w != 1:
+                continue
+            lo, hi = (-(1 << (w - 1)), (1 << (w - 1)) - 1) if sg else (0, (1 << w) - 1)
+
+            def fit(x):
+                if cn == '_Bool':
+                    return int(x != 0)
+                x &= (1 << w) - 1
+                return x - (1 << w) if sg and x >> (w - 1) else x
+            for v0 in sorted({lo, hi, 0, hi - 1 if hi > lo else hi}):
+                forms = [('=', rng.choice([hi + 1, lo - 1, 9, -1, 255, 1 << 20, hi, lo]))] + [(op, rng.choice([1, 3, hi, 2, 7])) for op in rng.sample(['+=', '-=', '*=', '|=', '^=', '<<=', '>>='], 3)]
+                forms += [('pre++', 1), ('pre--', 1), ('post++', 1), ('post--', 1)]
+                for (op, kk) in forms:
+                    k += 1
+                    nm = 'bfu%d' % k
+                    decl = 'static struct { char lead; %s f : %d; unsigned tail : 3; } %s = { 1, %d, 5 };' % (cn, w, nm, v0)
+                    if op == '=':
+                        new = fit(kk); val = new; txt = '(%s.f = %d)' % (nm, kk)
+                    elif op.startswith('pre') or op.startswith('post'):
+                        new = fit(v0 + (1 if op.endswith('++') else -1)); val = new if op.startswith('pre') else v0
+                        txt = ('%s%s.f' % (op[3:], nm)) if op.startswith('pre') else ('%s.f%s' % (nm, op[4:]))
+                    else:
+                        a = v0
+                        if op in ('<<=', '>>='):
+                            kk = rng.choice([0, 1, 2])
+                            if a < 0:
+                                continue
+                        r = {'+=': a + kk, '-=': a - kk, '*=': a * kk, '|=': a | kk, '^=': a ^ kk, '<<=': a << kk, '>>=': a >> kk}[op]
+                        if not (-(1 << 31) <= r < (1 << 31)) and not (w == 32 and not sg):
+                            continue          # the int arithmetic itself must not overflow
+                        new = fit(r); val = new; txt = '(%s.f %s %d)' % (nm, op, kk)
+                    key = 'C01|bitfield-update|%s|%s:%d|%s' % (op, cn, w, 'low-end' if v0 == lo else 'high-end' if v0 == hi else 'inside')
+                    cells.add(key)
+                    o = Obs(lambda i, txt=txt, nm=nm: '{ long r = %s; OUTV(%d, r); OUTV(%d, %s.f); OUTV(%d, %s.tail * 10 + %s.lead); }' % (txt, i, i, nm, i, nm, nm),
+                            lambda i, val=val, new=new: ['%d=%d' % (i, val), '%d=%d' % (i, new), '%d=51' % i], key, '%s with f = %d' % (txt, v0))
+                    o.pre = (lambda i, decl=decl: decl)
+                    obs.append(o)
+    return obs, len(cells)
+
+
 def gen_grid(ctx, V, rng, npairs):
     obs, cells = gen_bitfield_cells(V, rng, max(1, npairs // 6))
+    o2, c2 = gen_bitfield_updates(rng)
+    obs += o2
+    cells += c2
     # binary operators x 81 type pairs
     for op in BINOPS:
         for tl in ALL:
